@@ -220,6 +220,9 @@ func (m *Mux) AddListener(pattern string, handler func(*Event)) {
 	if handler == nil {
 		panic("nil event handler")
 	}
+	if !Pattern(pattern).IsValid() {
+		panic(invalidPattern)
+	}
 
 	n, params, _ := m.fetch(pattern, nil)
 	setAndValidateParams(n, params)
